@@ -251,8 +251,39 @@ func checkScanRow(c *sim.Ctx, row sqlittle.Row) {
 			c.Eval(3)
 		}
 	}
-	if _, ok := guard(0, "ScanStrings", func() error { row.ScanStrings(); return nil }); ok {
+	var all []string
+	if _, ok := guard(0, "ScanStrings", func() error { all = row.ScanStrings(); return nil }); ok {
 		c.Eval(1)
+		// the shortcuts are defined by Scan: ScanStrings()[i] == Scan(.., &string), ScanString() ==
+		// Scan(&s), ScanStringString() == Scan(&s1, &s2)
+		if len(all) != len(row) {
+			c.Fail("scan-conversion", "scan:ScanStrings:length", fmt.Sprintf("ScanStrings returned %d strings for a row of %d columns", len(all), len(row)), nil)
+		}
+		for i := range row {
+			var one string
+			a := make([]interface{}, i+1)
+			a[i] = &one
+			if err, ok := guard(i, "*string", func() error { return row.Scan(a...) }); ok && err == nil && i < len(all) && all[i] != one {
+				fail(i, "ScanStrings", fmt.Sprintf("ScanStrings gives %q, Scan(&string) gives %q", all[i], one))
+			}
+		}
+		var s1, s2, t1, t2, t3 string
+		var e1, e2 error
+		var eA, eB error
+		if _, ok := guard(0, "ScanString", func() error { t1, eA = row.ScanString(); return nil }); ok {
+			e1 = row.Scan(&s1)
+			if (eA != nil) != (e1 != nil) || (eA == nil && t1 != s1) {
+				fail(0, "ScanString", fmt.Sprintf("ScanString() = %q, %v; Scan(&string) = %q, %v", t1, eA, s1, e1))
+			}
+		}
+		if _, ok := guard(0, "ScanStringString", func() error { t2, t3, eB = row.ScanStringString(); return nil }); ok {
+			s1, s2 = "", ""
+			e2 = row.Scan(&s1, &s2)
+			if (eB != nil) != (e2 != nil) || (eB == nil && (t2 != s1 || t3 != s2)) {
+				fail(1, "ScanStringString", fmt.Sprintf("ScanStringString() = %q, %q, %v; Scan(&string, &string) = %q, %q, %v", t2, t3, eB, s1, s2, e2))
+			}
+		}
+		c.Eval(3)
 	}
 	// several destinations in ONE call: each column is converted on its own, so the
 	// call fails iff one of its single-destination scans (judged above against the
